@@ -39,7 +39,8 @@ and stmts () = let k = num () in times k stmt
 let rec pexpr () =
   match next () with
   | "n" -> PName (str ())
-  | "c" -> PConst (str ())
+  | "c" -> let r = str () in let numeric = (num () = 1) in PConst (r, numeric)
+  | "named" -> let t = pexpr () in let v = pexpr () in PNamed (t, v)
   | "a" -> let e = pexpr () in PAttr (e, str ())
   | "call" -> let f = pexpr () in let na = num () in let args = times na pexpr in let nk = num () in
     let kw = times nk (fun () -> let k = opt str in let v = pexpr () in (k, v)) in PCall (f, args, kw)
